@@ -32,6 +32,7 @@ class RefResult:
         self.labels = st.labels
         self.speculated = st.speculated
         self.spec_bodies = st.spec_bodies
+        self.dclass_nodes = st.dclass_nodes
         self.visit_ok = st.visit_ok
         self.full_log = st.full_log
         self.choosers = st.choosers
@@ -68,6 +69,7 @@ class _State:
         self.full_log = []    # every event, including those of absorbed failed attempts
         self.visits = {}      # dataset name -> list of effective option dicts
         self.labels = set()
+        self.dclass_nodes = set()   # canonical JSON of every dataset-class node that was evaluated
         self.speculated = False
         self.spec_bodies = set()   # bodies executed inside an attempt that failed and was absorbed
         self.visit_ok = {}         # dataset name -> list of (effective options, ok?)
@@ -458,6 +460,8 @@ class Ref:
     def e_dclass(self, n, o):
         vals = self.all_of([(lambda m=m: self.ev(m["node"], o)) for m in n["members"]])
         self.st.labels.add("dataset-class")
+        import json as _json
+        self.st.dclass_nodes.add(_json.dumps(n, sort_keys=True, default=repr))
         return sem.DCValue({m["name"]: sem.freeze(v) for m, v in zip(n["members"], vals)})
 
     def e_dict(self, n, o):
@@ -469,10 +473,16 @@ class Ref:
 
     def e_fapp(self, n, o):
         thunks = [(lambda a=a: self.ev(a, o)) for a in n["args"]] + [(lambda v=v: self.ev(v, o)) for v in n["kwargs"].values()]
+        if "fn" in n:
+            thunks.append(lambda: self.ev(n["fn"], o))
         vals = self.all_of(thunks)
+        tag = "fapp"
+        if "fn" in n:
+            tag = "fapp" if sem.pick_first(vals.pop()) else "fapp-alt"
+            self.st.labels.add("computed-function")
         a = vals[:len(n["args"])]
         kw = dict(zip(n["kwargs"].keys(), vals[len(n["args"]):]))
-        return ("fapp", tuple(sem.freeze(x) for x in a), tuple(sorted((k, sem.typed(v)) for k, v in kw.items())))
+        return (tag, tuple(sem.freeze(x) for x in a), tuple(sorted((k, sem.typed(v)) for k, v in kw.items())))
 
     def e_map(self, n, o):
         import itertools
